@@ -124,6 +124,8 @@ func main() {
 		cmdVerify(os.Args[2:])
 	case "check":
 		cmdCheck(os.Args[2:])
+	case "replay":
+		cmdReplay(os.Args[2:])
 	case "list":
 		cmdList(os.Args[2:])
 	default:
@@ -222,6 +224,14 @@ func cmdVerify(args []string) {
 				}
 			}
 			fmt.Printf("== %s: %d obligations, %d ok, %d failed, %d undecided, %d problems (gen %.2fs)\n", name, len(fr.Obls), np, nf, nu, len(fr.Problems), fr.GenTime)
+			if fr.Exec != nil {
+				for _, n := range fr.Exec.Notes {
+					fmt.Printf("   NOTE %s\n", n)
+				}
+				if fr.Exec.AutoInvs > 0 {
+					fmt.Printf("   derived search-loop invariants: %d\n", fr.Exec.AutoInvs)
+				}
+			}
 			for _, p := range fr.Problems {
 				fmt.Printf("   PROBLEM %s (%s)\n", p.Msg, p.Pos)
 				bad++
